@@ -40,7 +40,7 @@ commas inside matched pairs of (), [], {} and inside strings".  Hence
     the brackets and the quote, and has the same alternatives (recursively the same discipline).
 Unrecognised shapes are UNDECIDED.
 """
-from vlib import grammar
+from vlib import grammar, sx
 from vlib.report import RuleResult
 
 PAIRS = {'(': ')', '[': ']', '{': '}'}
@@ -335,7 +335,24 @@ def run_comments(ctx):
         arms = core['arms'] if core.get('op') == 'alt' else [core]
         closers = [lit_of(a) for a in arms]
         if None in closers or len(ps) != 3:
-            r.undecided(key + ':shape', W(f), '%s is not OPEN BODY CLOSE with literal closers' % f.name)
+            # a closer searched by hand: the search must not have a fallback that accepts the rest of the input
+            body_ast = f.item.get('body')
+            finds = [n_ for n_ in sx.walk(body_ast) if n_.get('k') == 'mcall' and n_['m'] in ('find', 'position', 'rfind') and n_['args'] and sx.lit_str(sx.strip_ref(n_['args'][0]))]
+            verdict = None
+            for fd in finds:
+                for n_ in sx.walk(body_ast):
+                    if n_.get('k') == 'mcall' and n_['m'] in ('unwrap_or', 'unwrap_or_else', 'unwrap_or_default', 'map_or', 'map_or_else') and any(z is fd for z in sx.walk(n_['recv'])):
+                        verdict = '.%s(..) on the search for %r' % (n_['m'], sx.lit_str(sx.strip_ref(fd['args'][0])))
+                    if n_.get('k') == 'match' and any(z is fd for z in sx.walk(n_['e'])):
+                        for arm in n_['arms']:
+                            pt = sx.render(arm['pat']).replace(' ', '')
+                            if pt in ('None', '_') and not any(sx.is_call(z, 'Err') or z.get('k') == 'try' for z in sx.walk(arm['body'])):
+                                verdict = 'the `%s` arm of the search for %r yields `%s`' % (pt, sx.lit_str(sx.strip_ref(fd['args'][0])), sx.render(arm['body'])[:40])
+            if verdict:
+                r.fail(key + ':closer-optional', W(f), '%s looks for its closer by hand and has a fallback when it is missing (%s): an unterminated comment is accepted '
+                       'and swallows the rest of the text instead of being a lexical fault' % (f.name, verdict))
+            else:
+                r.undecided(key + ':shape', W(f), '%s is not OPEN BODY CLOSE with literal closers' % f.name)
             continue
         cls = None
         guards = {}
